@@ -12,7 +12,7 @@ R-DEDUP     the de-duplication map is keyed by the complete payload, stores the 
 R-PM-SORT   PMTiles entries are sorted by tile id before they are serialised (delta encoding / binary search).
 R-WRITEALL  DataWriterTrait::append writes the whole blob (write_all) — a short write must not be recorded as the tile.
 """
-from . import absint, comp, ir, wire
+from . import absint, affine, comp, ir, wire
 from .report import m_drop_stmt, m_replace
 
 META = {
@@ -315,6 +315,11 @@ def rules(ck, P):
                                                                 and ir.contains(y, lambda z: z.get("k") == "field" and z.get("name") == "tile_id"))), None)
         ui = next((i for i, s in enumerate(sts) if ir.contains(s, lambda y: y.get("k") == "mcall" and y.get("name") in ("serialize_entries", "as_slice"))), None)
         ck.check(si is not None and ui is not None and si < ui, "R-PM-SORT", "sort-before-serialize", "entries are sorted by tile_id before any slice is serialised", "entries are serialised without a preceding sort by tile_id", ir.loc(ad))
+    # ---------------- R-PM-LEAVES: leaf directories partition the sorted entries
+    bl = [b for b in P.bodies if b["q"].startswith(ad["q"] + "::")] if ad else []
+    bl = [b for b in bl if ir.contains(b["body"], lambda y: y.get("k") == "mcall" and (y.get("q") or "").endswith("EntriesSliceV3::slice"))]
+    if ck.anchor("R-PM-LEAVES", "leaf builder (fn slicing the entries)", bl, 1):
+        _leaf_partition(ck, bl[0])
     # ---------------- R-WRITEALL
     impls = P.impls_of("::DataWriterTrait")
     ck.anchor("R-WRITEALL", "impl DataWriterTrait", impls, 2)
@@ -330,6 +335,88 @@ def rules(ck, P):
                          "silently truncates a tile while the index says it is complete; write_all is the accepted idiom", ir.loc(n))
         if not partial:
             ck.ok("R-WRITEALL", ap["q"], "%s::append writes the whole blob (no partial Write::write)" % short, ir.loc(ap))
+
+
+def _leaf_partition(ck, b):
+    """while I < N { … entries.slice(I..E) …; I += S }  with I0 = 0, E = min(I + S, N), N = entries.len():
+    consecutive slices tile [0, N), so every entry is in exactly one leaf"""
+    A = affine
+    key = "pmtiles.leaves"
+    blk = ir.fn_block(b)
+    sts = ir.stmts_of(blk)
+    loops = [(i, s) for i, s in enumerate(sts) if s.get("k") == "while"]
+    if not ck.check(len(loops) == 1, "R-PM-LEAVES", key + "|loop", "one loop builds the leaves", "%d top-level loops in the leaf builder" % len(loops), ir.loc(b)):
+        return
+    li, lp = loops[0]
+    env0 = A.Env()
+    A.run(sts[:li], env0)
+    cl = A._cmp_terms(lp["c"], env0.copy())
+    c = ir.unparen(lp["c"])
+    ivar = ir.strip(c["l"]) if c.get("k") == "bin" else None
+    if not ck.check(cl is not None and cl[1] == "<" and ivar is not None and ivar.get("k") == "path" and ivar.get("r") == "local", "R-PM-LEAVES", key + "|cond",
+                    "the loop runs while index < number of entries", "loop condition is not `index < len`", ir.loc(lp)):
+        return
+    ih = ivar["hid"]
+    i0 = env0.m.get(ih)
+    ck.check(A.as_const(i0) == 0, "R-PM-LEAVES", key + "|start", "the index starts at 0", "the index starts at %s" % A.show(i0), ir.loc(lp))
+    I = A.sym((ih, ivar["name"]))
+    env = A.Env()
+    N = A.ev(c["r"], env)
+    body = ir.stmts_of(lp["body"])
+    # terms of the slice bounds at the slice statement
+    found = {}
+
+    def stop(st):
+        for y in ir.walk_nodes(st):
+            if y.get("k") == "mcall" and (y.get("q") or "").endswith("EntriesSliceV3::slice") and y["a"] and y["a"][0].get("k") == "struct":
+                fs = y["a"][0]["fields"]
+                found["recv"] = A.ev_place(y["recv"], env)
+                found["lo"] = A.ev(fs[0]["e"], env)
+                found["hi"] = A.ev(fs[1]["e"], env)
+                found["node"] = y
+        return False
+    for st in body:
+        stop(st)
+        A.run([st], env)
+    inext = env.m.get(ih, I)
+    S = A.sub(inext, I)
+    s_free = S is not A.TOP and not any(("sym", (ih, ivar["name"])) in m for m in S) and "opq" not in repr(A.freeze(S)) and A.as_const(S) != 0
+    ck.check(s_free, "R-PM-LEAVES", key + "|step", "the index advances by a fixed positive step per leaf (%s)" % A.show(S), "the index advances by %s" % A.show(S), ir.loc(lp))
+    esc = [n for n in ir.walk_nodes(lp["body"]) if n.get("k") in ("break", "continue")]
+    ck.check(not esc, "R-PM-LEAVES", key + "|no-skip", "no break/continue inside the loop", "break/continue inside the leaf loop skips entries", ir.loc(lp))
+    if not ck.check("lo" in found, "R-PM-LEAVES", key + "|slice", "each leaf serialises entries.slice(lo..hi)", "no slice(lo..hi) call with a literal range in the loop", ir.loc(lp)):
+        return
+    ck.check(A.eq(found["lo"], I), "R-PM-LEAVES", key + "|lower", "a leaf starts at the loop index", "a leaf starts at %s, not at the loop index" % A.show(found["lo"]), ir.loc(found["node"]))
+    want = A.tmin(A.add(I, S), N) if s_free else A.TOP
+    ck.check(A.eq(found["hi"], want), "R-PM-LEAVES", key + "|upper", "a leaf ends (exclusively) at min(index + step, len): consecutive leaves tile the entries without gap or overlap",
+             "a leaf ends at `%s`, expected `%s`: entries between two leaves are lost or duplicated" % (A.show(found["hi"]), A.show(want)), ir.loc(found["node"]))
+    # the root entry of a leaf: key = tile id of the leaf's first entry, range = (bytes written so far, size of this leaf), run_length 0
+    ne = [y for y in ir.walk_nodes(lp["body"]) if y.get("k") == "call" and (y.get("q") or "").endswith("EntryV3::new")]
+    ok_root = False
+    why = "no EntryV3::new in the loop"
+    if len(ne) == 1 and len(ne[0]["a"]) == 3:
+        a0, a1, a2 = ne[0]["a"]
+        g = [y for y in ir.walk_nodes(a0) if y.get("k") == "mcall" and y.get("name") == "get"]
+        env2 = A.Env()
+        first = bool(g) and A.eq(A.ev(g[0]["a"][0], env2), I) and ir.strip(a0).get("k") == "field" and ir.strip(a0).get("name") == "tile_id"
+        br = ir.strip(a1)
+        rng = br.get("k") == "call" and (br.get("q") or "").endswith("ByteRange::new") and len(br["a"]) == 2
+        off_ok = len_ok = False
+        if rng:
+            o = [y for y in ir.walk_nodes(br["a"][0]) if y.get("k") == "mcall" and y.get("name") == "len"]
+            l = [y for y in ir.walk_nodes(br["a"][1]) if y.get("k") == "mcall" and y.get("name") == "len"]
+            ser = [st for st in body if st.get("k") == "let" and ir.contains(st.get("init", {}), lambda y: y is found["node"])]
+            ser_h = ser[0]["pat"]["hid"] if ser and ser[0]["pat"].get("k") == "bind" else None
+            acc_h = ir.local_hid(o[0]["recv"]) if o else None
+            len_ok = bool(l) and ser_h is not None and ir.local_hid(l[0]["recv"]) == ser_h
+            # the accumulator grows by exactly this leaf, after the entry was built
+            wr = [y for y in ir.walk_nodes(lp["body"]) if y.get("k") == "mcall" and ir.local_hid(y["recv"]) == acc_h and y["recv"].get("ta", "").startswith("&mut")]
+            off_ok = acc_h is not None and len(wr) == 1 and wr[0]["name"] in ("write_all", "extend_from_slice", "extend") and \
+                ir.contains(wr[0]["a"][0], lambda y: ir.local_hid(y) == ser_h) and (wr[0].get("s") or [0, 0])[1] > (ne[0].get("s") or [0, 0])[1]
+        ok_root = first and rng and off_ok and len_ok and ir.const_eval(a2, {}) == 0
+        why = "first=%s range=%s offset=%s length=%s run_length=%s" % (first, rng, off_ok, len_ok, ir.const_eval(a2, {}))
+    ck.check(ok_root, "R-PM-LEAVES", key + "|root-entry", "the root entry of a leaf = (tile id of its first entry, bytes written before it, its serialised size, run_length 0)",
+             "root entry does not describe the leaf just written (%s)" % why, ir.loc(lp))
 
 
 def _order(n):
